@@ -228,6 +228,12 @@ func (c *Check) classifyMapRange(f *Func, rs *ast.RangeStmt) (string, bool) {
 						emits++
 						continue
 					}
+					// an entry of a set (a map to a constant): insertion commutes, the set built is the same in any order
+					if ev.Val.Op == "upd" && len(ev.Val.A) == 3 && isConstTerm(stripConv(ev.Val.A[2])) {
+						if _, isMap := ev.Var.Type().Underlying().(*types.Map); isMap {
+							continue
+						}
+					}
 					outerAssign = ev.Var.Name()
 				}
 			}
@@ -1177,6 +1183,9 @@ func (c *Check) nilMapWrites(fs []*Func) {
 						okW = true
 					}
 				}
+				if !okW && insideNonNilGuard(f.Body, as, types.ExprString(ix.X)) {
+					okW = true // written only under "this map is not nil"
+				}
 				c.req(okW, "C20.3", unitConstruct(f, "map-write:"+types.ExprString(ix.X)), as.Pos(),
 					"an entry of a map is assigned only where the map cannot be nil (made where it is declared, a field only ever given a made map, or a parameter every call site fills with such a map)"+condStr(!okW, ": "+why))
 			}
@@ -1364,6 +1373,16 @@ func (c *Check) decodedTimesEncodable(fs []*Func) {
 		if len(fields) == 0 {
 			continue
 		}
+		// a validator that decodes only to look (it returns nothing but an error) stores nothing
+		onlyErr := true
+		for _, r := range g.Res {
+			if !isErrorType(r.Type()) {
+				onlyErr = false
+			}
+		}
+		if onlyErr && len(g.Res) > 0 && len(c.directEffectsDepth(g, 2)) == 0 {
+			continue
+		}
 		// a helper that only decodes and hands the decoded record back leaves the test to its callers
 		var callers []*Func
 		handsBack := false
@@ -1447,4 +1466,52 @@ func (c *Check) decodedTimesEncodable(fs []*Func) {
 	}
 	c.Sites += n
 	c.req(n >= 1, "C20.3", "decoded-times", token.NoPos, fmt.Sprintf("%d time fields of JSON-decoded types in handler-reachable code", n))
+}
+
+
+// insideNonNilGuard: the statement lies in the then-branch of an if statement whose condition is (a conjunction containing)
+// "<expr> != nil" for the given expression text.
+func insideNonNilGuard(body *ast.BlockStmt, target ast.Node, expr string) bool {
+	var stack []ast.Node
+	found := false
+	ast.Inspect(body, func(nd ast.Node) bool {
+		if found {
+			return false
+		}
+		if nd == nil {
+			stack = stack[:len(stack)-1]
+			return true
+		}
+		stack = append(stack, nd)
+		if nd != target {
+			return true
+		}
+		for i := len(stack) - 2; i >= 0; i-- {
+			is, ok := stack[i].(*ast.IfStmt)
+			if !ok || i+1 >= len(stack) || stack[i+1] != ast.Node(is.Body) {
+				continue
+			}
+			var conj func(e ast.Expr) bool
+			conj = func(e ast.Expr) bool {
+				be, ok := ast.Unparen(e).(*ast.BinaryExpr)
+				if !ok {
+					return false
+				}
+				if be.Op == token.LAND {
+					return conj(be.X) || conj(be.Y)
+				}
+				if be.Op == token.NEQ {
+					if id, ok := ast.Unparen(be.Y).(*ast.Ident); ok && id.Name == "nil" && types.ExprString(be.X) == expr {
+						return true
+					}
+				}
+				return false
+			}
+			if conj(is.Cond) {
+				found = true
+			}
+		}
+		return false
+	})
+	return found
 }
